@@ -1422,6 +1422,14 @@ func (v *VMValue) ArrayRepeatTimesEx(ctx *Context, times *VMValue) *VMValue {
 	case VMTypeInt:
 		times, _ := times.ReadInt()
 		ad, _ := v.ReadArray()
+		if times < 0 {
+			times = 0 // 负数次重复得到空数组
+		}
+		if len(ad.List) > 0 && times > 512 {
+			// 先行检查，避免乘法溢出
+			ctx.Error = errors.New("不能一次性创建过长的数组")
+			return nil
+		}
 		length := IntType(len(ad.List)) * times
 
 		if length > 512 {
